@@ -64,7 +64,40 @@ theorem setXy_spec (t : Tuple R) (a b : R) (h : 1 < t.dim) :
   simp only [Tuple.dim] at h h0
   simp [Tuple.setXy, Tuple.setNth, Tuple.dim, h, h0]
 
+/-- **`scale` agrees with the element-wise definition**, for a tuple of any dimension -/
+theorem scale_nth [Mul R] (t : Tuple R) (f : R) (n : Nat) (h : n < t.dim) :
+    (t.scale f).nth nan n = t.nth nan n * f := by
+  simp only [Tuple.dim] at h
+  simp [Tuple.scale, Tuple.nth, Tuple.dim, h, List.getD_eq_getElem?_getD]
+
+theorem scale_dim [Mul R] (t : Tuple R) (f : R) : (t.scale f).dim = t.dim := by
+  simp [Tuple.scale, Tuple.dim]
+
+/-- `dot` is the left-to-right sum of the element-wise products (the order matters in binary64) -/
+theorem dot_eq_foldl [Mul R] [Add R] (zero : R) (t o : Tuple R) :
+    Tuple.dot zero nan t o = ((List.range t.dim).map fun i => t.nth nan i * o.nth nan i).foldl (· + ·) zero := by
+  simp [Tuple.dot, List.foldl_map]
+
 end tuple
+
+/-- over the reals: **`dot` is the sum of the products of the elements**, whatever the dimension -/
+theorem dot_eq_sum (t o : Tuple ℝ) (nan : ℝ) :
+    Tuple.dot 0 nan t o = ∑ i ∈ Finset.range t.dim, t.nth nan i * o.nth nan i := by
+  rw [dot_eq_foldl]
+  generalize t.dim = n
+  induction n with
+  | zero => simp
+  | succ k ih =>
+    rw [List.range_succ, List.map_append, List.foldl_append, ih, Finset.sum_range_succ]
+    simp
+
+/-- ... and symmetric for tuples of one dimension -/
+theorem dot_comm (t o : Tuple ℝ) (nan : ℝ) (h : t.dim = o.dim) : Tuple.dot 0 nan t o = Tuple.dot 0 nan o t := by
+  rw [dot_eq_sum, dot_eq_sum, h]
+  exact Finset.sum_congr rfl fun i _ => mul_comm _ _
+
+example : Tuple.dot (0 : ℝ) 0 ⟨[1, 2, 3, 4, 5]⟩ ⟨[1, 1, 1, 1, 2]⟩ = 20 := by
+  rw [dot_eq_sum]; simp [Finset.sum_range_succ, Tuple.nth, Tuple.dim]; norm_num
 
 /-- the loop of `update` after `k` rounds -/
 theorem update_loop (value vals : List R) (k : Nat) (hk1 : k ≤ value.length) (hk2 : k ≤ vals.length) :
